@@ -38,10 +38,16 @@ type cmdRun struct {
 	in      *absint.Interp
 	unseen  []string
 	errNils []bdd.Node
+	// successOnly: every modelled library call returns a nil error (the run
+	// covers the success path only)
+	successOnly bool
 }
 
 func (cr *cmdRun) newErr(c *dom.Ctx, callee string) *absint.Iface {
 	cr.nerr++
+	if cr.successOnly {
+		return &absint.Iface{Nil: bdd.True}
+	}
 	name := fmt.Sprintf("err#%d(%s)", cr.nerr, callee)
 	n := c.Atom("IsNil("+name+")", 1)[0]
 	cr.errNils = append(cr.errNils, n)
@@ -124,10 +130,25 @@ func strConst(v absint.Value) (string, bool) {
 	return "", false
 }
 
-// runCommand interprets init() then run() of a command package.
+// runCommand interprets init() then run() of a command package.  The errors
+// of the library calls are unknowns, so that the success path is a care set
+// and what happens after a failure is visible; when that leaves a loop with an
+// early exit on an error undecidable (its trip count is a constant only on the
+// success path), the run is repeated on the success path alone - which is the
+// path the rule is about.
 func runCommand(cx *Ctx, pkgPath string, assume func(c *dom.Ctx) bdd.Node) *cmdRun {
+	cr := runCommand1(cx, pkgPath, assume, false)
+	if cr.err != nil && strings.Contains(cr.err.Error(), "whose control flow depends on a value that is not a constant") {
+		if cr2 := runCommand1(cx, pkgPath, assume, true); cr2.err == nil {
+			return cr2
+		}
+	}
+	return cr
+}
+
+func runCommand1(cx *Ctx, pkgPath string, assume func(c *dom.Ctx) bdd.Node, successOnly bool) *cmdRun {
 	sp := cx.P.SSAPkg(pkgPath)
-	cr := &cmdRun{}
+	cr := &cmdRun{successOnly: successOnly}
 	if sp == nil {
 		cr.err = fmt.Errorf("UNRESOLVED anchor: package %s", pkgPath)
 		return cr
@@ -255,6 +276,14 @@ func runCommand(cx *Ctx, pkgPath string, assume func(c *dom.Ctx) bdd.Node) *cmdR
 			cnt, ok2 := args[1].(dom.BV)
 			if !ok || !ok2 || len(segs) != 1 || len(segs[0].Bytes) != 1 {
 				return nil, false
+			}
+			if k, isc := cnt.IsConst(); isc && k <= 16 {
+				// a small fresh slice: concrete storage (it may be written to afterwards)
+				var bs []dom.BV
+				for i := 0; i < int(k); i++ {
+					bs = append(bs, segs[0].Bytes[0])
+				}
+				return in.NewConcreteBytes(st, bs), true
 			}
 			if k, isc := cnt.IsConst(); isc && k <= 256 {
 				var bs []dom.BV
